@@ -44,7 +44,8 @@ CLAIMS = {
          "composition): for EVERY tree of the operator grammar - identifiers, prefix runs of any length, * / %, + -, the seven relations, && / || chains of "
          "any length, ?:, explicit parentheses - the token rendering with minimal parentheses under CEL's precedence table parses - parse_tokens, i.e. with the fuel "
          "compile itself uses: an explicit fuel bound per tree is proved and shown to fit under 16*(tokens+2) - to exactly the tree's AST: tighter operators bind first, equal levels associate to the left, logical chains build the balanced tree with the "
-         "operands in source order, parentheses group. Also proved: the balanced-tree leaf order for every chain length, prefix-run parity, macros expand "
+         "operands in source order, parentheses group; and from SOURCE TEXT: compile(text(render t)) = tree, where text writes each token followed by a space "
+         "(the lexer model is proved to read such text back token for token). Also proved: the balanced-tree leaf order for every chain length, prefix-run parity, macros expand "
          "around receiver and arguments. PARTIAL in this: postfix forms (select, index, calls), literals and collection literals are outside the round-trip "
          "theorem. Tied to the code per case: the run checks on every operator tree (all trees "
          "with <= 2 operators in both renderings, random deeper ones, chains to 24, prefix runs to 7, mixed left-associative chains) that the real parser's "
